@@ -127,7 +127,15 @@ def main():
             traceback.print_exc()
             print(f'translate failed: {e!r}')
             return 2
+        translate_failed = [t for pid, t in translate.FAILED if pid == prop]
+        for pid, t in translate.FAILED:
+            if pid != prop:
+                print(f'note: the tables of {pid} could not be extracted from the tree under test ({t}); not this property')
         build_ok, log, dt = lean.build([root])
+        if translate_failed:
+            # the tables this property's theorems are proved over no longer describe the source: not shown to hold
+            build_ok = False
+            log = 'translator could not extract the tables of %s from the tree under test: %s' % (prop, '; '.join(translate_failed))
         if not build_ok:
             proof_notes.append('lake build failed:\n' + log[-6000:])
         # the driver links the models of all properties; when another property's model is broken the last good
